@@ -190,3 +190,7 @@ def run(chk, facts, tier):
     # (which only shows once the left entity has been loaded) are shared with C14
     from rules import c02_ops
     c02_ops.check_tpe(chk, facts)
+    # ... and so is the licence to drop an error-capable operand when a connective is decided early
+    from rules import c14_canerr
+    c14_canerr.check(chk, facts)
+    c14_canerr.folds_guarded(chk, facts)
